@@ -71,6 +71,105 @@ def run_invocation(sc, backend, seed, fault=None, schedule=None):
 
         ExecutionState.create_checkpoint = cc
         gates = {}
+        # ---- instrumentation for the Par model (trace inclusion), all from outside the SDK
+        import aws_durable_execution_sdk_python.concurrency.executor as exmod
+        from aws_durable_execution_sdk_python.concurrency.models import ExecutableWithState
+        pe = res.setdefault("pevents", [])
+        t0 = sim.clock
+
+        def us(t):
+            return int(round((t - t0) * 1e6))
+
+        orig_execute = exmod.ConcurrentExecutor.execute
+        orig_cb = exmod.ConcurrentExecutor._on_task_complete
+        orig_reset = ExecutableWithState.reset_to_pending
+        orig_heapq = exmod.heapq
+
+        def execute(self, execution_state, executor_context):
+            pe.append(["exec.start", us(sim.clock), len(self.executables), self.max_concurrency or 0])
+            try:
+                r = orig_execute(self, execution_state, executor_context)
+            except BaseException as e:  # noqa: BLE001
+                kind = type(e).__name__
+                pe.append(["exec.end", us(sim.clock), "raise", kind, us(getattr(e, "scheduled_timestamp", t0)) if hasattr(e, "scheduled_timestamp") else None])
+                raise
+            pe.append(["exec.end", us(sim.clock), "result", [it.status.value for it in r.all], None])
+            return r
+
+        def on_task_complete(self, exe_state, future, scheduler):
+            if future.cancelled():
+                pe.append(["cancel", us(sim.clock), exe_state.index])
+            else:
+                exc = future._exc
+                n = type(exc).__name__ if exc is not None else None
+                if exc is None:
+                    k = ["ok"]
+                elif n == "OrphanedChildException":
+                    k = ["orphan"]
+                elif n == "TimedSuspendExecution":
+                    k = ["suspUntil", us(exc.scheduled_timestamp)]
+                elif n == "SuspendExecution":
+                    k = ["susp"]
+                elif isinstance(exc, Exception):
+                    k = ["err"]
+                else:
+                    k = ["fatal"]
+                # the model's `finish` action is placed at the instant the callback's effect happens: the branch status
+                # change (ok/err/susp*), or - for orphan/fatal, which change no status - the entry of the locked section
+                sim.tls.cb = (exe_state.index, k)
+                if k[0] in ("orphan", "fatal") and not hasattr(exmod.ConcurrentExecutor, "_handle_task_complete"):
+                    pe.append(["finish", us(sim.clock), exe_state.index] + k)
+                    sim.tls.cb = None
+            try:
+                return orig_cb(self, exe_state, future, scheduler)
+            finally:
+                sim.tls.cb = None
+
+        def flush_cb():
+            cb = getattr(sim.tls, "cb", None)
+            if cb is not None:
+                pe.append(["finish", us(sim.clock), cb[0]] + cb[1])
+                sim.tls.cb = None
+
+        orig_status = {m: getattr(ExecutableWithState, m) for m in ("complete", "fail", "suspend", "suspend_with_timeout")}
+
+        def wrap_status(m):
+            orig = orig_status[m]
+
+            def w(self, *a, **k):
+                flush_cb()
+                return orig(self, *a, **k)
+            return w
+        for m in orig_status:
+            setattr(ExecutableWithState, m, wrap_status(m))
+        orig_handle = getattr(exmod.ConcurrentExecutor, "_handle_task_complete", None)
+        if orig_handle is not None:
+            def handle_task_complete(self, exe_state, future, scheduler):
+                cb = getattr(sim.tls, "cb", None)
+                if cb is not None and cb[1][0] in ("orphan", "fatal"):
+                    flush_cb()
+                return orig_handle(self, exe_state, future, scheduler)
+            exmod.ConcurrentExecutor._handle_task_complete = handle_task_complete
+
+        def reset_to_pending(self):
+            pe.append(["reset", us(sim.clock), self.index])
+            return orig_reset(self)
+
+        class HeapqProxy:
+            heappush = staticmethod(orig_heapq.heappush)
+
+            @staticmethod
+            def heappop(h):
+                item = orig_heapq.heappop(h)
+                pe.append(["timer.pop", us(sim.clock), item[2].index])
+                return item
+
+        exmod.ConcurrentExecutor.execute = execute
+        exmod.ConcurrentExecutor._on_task_complete = on_task_complete
+        ExecutableWithState.reset_to_pending = reset_to_pending
+        exmod.heapq = HeapqProxy
+        sim.trace_hook = lambda ev: pe.append(["begin", us(sim.clock), ev["idx"]]) if ev["op"] == "pool.begin" and ev.get("idx") is not None else (
+            pe.append(["submit", us(sim.clock), ev["t"]]) if ev["op"] == "pool.submit" and ev.get("pool") == "pool" else None)
 
         def run_actions(ctx, actions, tag):
             out = []
@@ -81,10 +180,13 @@ def run_invocation(sc, backend, seed, fault=None, schedule=None):
                     def fn(sctx, a=a, name=name):
                         res["bodies"] += 1
                         res["max_bodies"] = max(res["max_bodies"], res["bodies"])
-                        res["events"].append(["enter", name, sim.clock])
+                        recorded = sorted(o.status for o in backend.ops.values() if o.name == name and o.status in TERMINAL)
+                        res["events"].append(["enter", name, sim.clock, recorded])
                         try:
                             for _ in range(a.get("yield", 1)):
                                 sim.point("body")
+                            if a.get("sleep"):
+                                sim.block_until(lambda: False, a["sleep"])   # a user function that takes (virtual) time
                             if "err" in a["out"]:
                                 raise type(a["out"]["err"]["cls"], (Exception,), {})(a["out"]["err"]["msg"])
                             return VALUE_POOL[a["out"]["ok"]]
@@ -153,6 +255,14 @@ def run_invocation(sc, backend, seed, fault=None, schedule=None):
         finally:
             ExecutionState.create_checkpoint = orig_cc
             backend.checkpoint = orig_ck
+            exmod.ConcurrentExecutor.execute = orig_execute
+            exmod.ConcurrentExecutor._on_task_complete = orig_cb
+            ExecutableWithState.reset_to_pending = orig_reset
+            exmod.heapq = orig_heapq
+            for m, f in orig_status.items():
+                setattr(ExecutableWithState, m, f)
+            if orig_handle is not None:
+                exmod.ConcurrentExecutor._handle_task_complete = orig_handle
     res["hung"] = sim.hung if ("out" not in res and "raised" not in res) else None
     res["limit"] = sim.limit_hit
     res["decisions"] = list(sim.decisions)
@@ -179,7 +289,7 @@ def run_execution(sc, seed, max_inv=12, fault=None):
                "hung": res["hung"], "limit": res["limit"], "decisions": res["decisions"], "out": res.get("out"),
                "log": [(t, [(u["name"], u["action"], u["type"]) for u in us], o) for t, us, o in backend.calls],
                "enabled_after": [(kind, backend.ops[i].name) for kind, i in backend.enabled_events()],
-               "rejections": list(backend.rejections), "fault_fired": res.get("fault_fired", False)}
+               "rejections": list(backend.rejections), "fault_fired": res.get("fault_fired", False), "pevents": res.get("pevents", [])}
         backend.calls = []
         invs.append(inv)
         if inv["status"] != "PENDING":
@@ -191,7 +301,7 @@ def run_execution(sc, seed, max_inv=12, fault=None):
         rng.shuffle(en)
         for kind, i in en[: rng.randrange(1, len(en) + 1)]:
             backend.fire(kind, i, {"k": "succeeded", "v": "R:cb"} if kind in ("callbackDone", "invokeDone") else None)
-    return {"scenario": sc, "invs": invs, "seed": seed}
+    return {"scenario": sc, "invs": invs, "seed": seed, "fault_at": None if fault is None else fault["at"]}
 
 
 # ------------------------------------------------------------------------------------ oracles
@@ -207,6 +317,8 @@ def expected_policy(cfg, n, s, f):
 def oracles(ctx, prop, ex, component):
     sc = ex["scenario"]
     case = {"scenario": sc, "seed": ex["seed"]}
+    if ex.get("fault_at") is not None:
+        case["fault_at"] = ex["fault_at"]
 
     def V(name, detail):
         if name.startswith(prop + "."):
@@ -214,6 +326,7 @@ def oracles(ctx, prop, ex, component):
 
     cfg = sc.get("completion") or {}
     first_batches = {}
+    entered = {}
     for k, inv in enumerate(ex["invs"]):
         has_block = any(a["a"] == "block" for b in sc["blocks"] for br in b.get("branches", []) for a in br)
         if (inv["hung"] or inv["limit"]) and has_block and not inv["batches"]:
@@ -223,6 +336,14 @@ def oracles(ctx, prop, ex, component):
             V("C09.map_never_returns", {"inv": k, "hung": inv["hung"]}) if any(len(b.get("branches", [1])) == 0 for b in sc["blocks"]) else None
             V("C06.invocation_hangs_after_checkpoint_failure", {"inv": k, "hung": inv["hung"]}) if inv["fault_fired"] else None
             continue
+        for ev in inv["events"]:
+            if ev[0] == "enter":
+                if len(ev) > 3 and ev[3]:
+                    V("C01.user_function_entered_for_recorded_operation", {"inv": k, "step": ev[1], "recorded": ev[3]})
+                entered[ev[1]] = entered.get(ev[1], 0) + 1
+                if entered[ev[1]] > 1:
+                    # no-retry steps, no crashes in these scenarios: a second entry is a re-execution
+                    V("C01.step_user_function_ran_twice", {"inv": k, "step": ev[1], "runs": entered[ev[1]]})
         if inv["fault_fired"] and inv["status"] in ("SUCCEEDED", "PENDING"):
             V("C06.success_or_pending_after_checkpoint_failure", {"inv": k, "status": inv["status"]})
         for rej in inv["rejections"]:
@@ -254,8 +375,10 @@ def oracles(ctx, prop, ex, component):
                         want = "|".join(("None" if a["a"] == "wait" else a["out"]["ok"] if a["a"] == "step" else "R:cb") for a in acts if a["a"] in ("step", "wait", "cb"))
                         if it[2] != want:
                             V("C09.item_result_not_branch_result", {"inv": k, "block": n, "index": it[0], "got": it[2], "want": want})
+                            V("C01.item_result_not_recorded_result", {"inv": k, "block": n, "index": it[0], "got": it[2], "want": want})
                 if n in first_batches and first_batches[n] != rep:
                     V("C09.replayed_batch_result_differs", {"block": n, "first": first_batches[n], "later": rep, "inv": k})
+                    V("C02.replayed_batch_result_differs", {"block": n, "first": first_batches[n], "later": rep, "inv": k})
                 first_batches.setdefault(n, rep)
             mc = blk.get("max_concurrency")
             if mc and inv["max_bodies"] > mc and sum(1 for b in sc["blocks"] if b["kind"] in ("map", "parallel")) == 1:
@@ -314,8 +437,10 @@ def gen_branch(rng, allow_block=True):
     for _ in range(rng.choice([1, 1, 2, 3])):
         r = rng.random()
         if r < 0.55:
-            out = {"ok": rng.choice(["i5", "s", "t", "z", "None"])} if rng.random() < 0.7 else {"err": {"cls": "Boom", "msg": "bad"}}
+            out = {"ok": rng.choice(["i5", "s", "t", "z", "None"])} if rng.random() < 0.7 else {"err": {"cls": "Boom", "msg": rng.choice(["bad", "bad", ""])}}
             acts.append({"a": "step", "out": out, "yield": rng.choice([1, 1, 3, 8])})
+            if rng.random() < 0.25:
+                acts[-1]["sleep"] = rng.choice([1, 2, 4])
         elif r < 0.7:
             acts.append({"a": "wait", "secs": rng.choice([1, 2, 5])})
         elif r < 0.78:
@@ -323,7 +448,7 @@ def gen_branch(rng, allow_block=True):
         elif r < 0.86:
             acts.append({"a": "yield", "n": rng.choice([1, 5])})
         elif r < 0.92:
-            acts.append({"a": "raise", "cls": "Boom"})
+            acts.append({"a": "raise", "cls": "Boom", "msg": rng.choice(["raised", ""])})
             break
         elif allow_block and r < 0.96:
             acts.append({"a": "block"})
@@ -359,7 +484,9 @@ def nontrivial(ex):
 def one(ctx, prop, sc, seed, component="executor", fault=None):
     ex = run_execution(sc, seed, fault=fault)
     oracles(ctx, prop, ex, component)
-    ctx.case((json.dumps(sc, sort_keys=True), seed) if (nontrivial(ex) or prop in ("C07", "C06", "C10")) and len(ex["invs"]) >= 1 else None)
+    for inv in ex["invs"]:
+        compare_par(ctx, sc, inv)
+    ctx.case((json.dumps(sc, sort_keys=True), seed) if (nontrivial(ex) or prop in ("C07", "C06", "C10", "C01", "C02")) and len(ex["invs"]) >= 1 else None)
     ctx.count("exec.invocations=%d" % min(len(ex["invs"]), 5))
     ctx.count("exec.status=" + ex["invs"][-1]["status"])
     if len(ctx.samples) < 4:
@@ -377,6 +504,114 @@ def run_c09(ctx):
     run_prop(ctx, "C09")
 
 
+class InjectedFault(RuntimeError):
+    """What the fake client raises for an injected checkpoint failure."""
+
+
+def run_fault(ctx, prop, n_quick=80, n_thorough=2500):
+    """Scenarios in which API call number k of the first invocation fails."""
+    for i in range(ctx.scale(n_quick, n_thorough)):
+        sc = gen_scenario(ctx.rng)
+        one(ctx, prop, sc, ctx.rng.randrange(1 << 30), component="executor.fault", fault={"at": ctx.rng.randrange(0, 5), "exc": InjectedFault})
+
+
 def replay(ctx, rec, prop="C09"):
     case = rec["case"]
-    one(ctx, prop, case["scenario"], case.get("seed", 0), component="executor.replay")
+    fault = {"at": case["fault_at"], "exc": InjectedFault} if case.get("fault_at") is not None else None
+    one(ctx, prop, case["scenario"], case.get("seed", 0), component="executor.replay", fault=fault)
+
+
+# ------------------------------------------------------------------------------------ Par model (trace inclusion)
+def derive_par_actions(pevents):
+    """Events of ONE executor run (between exec.start and exec.end) -> Par model actions."""
+    acts = []
+    start = next((e for e in pevents if e[0] == "exec.start"), None)
+    if start is None:
+        return None
+    last_t = start[1]
+    n, max_conc = start[2], start[3]
+    end = None
+    evs = pevents[pevents.index(start) + 1:]
+    i = 0
+    while i < len(evs):
+        e = evs[i]
+        t = e[1]
+        if e[0] in ("begin", "finish", "timer.pop", "exec.end", "cancel") and t > last_t:
+            acts.append(["tick", t - last_t])
+            last_t = t
+        if e[0] == "begin":
+            acts.append(["begin", e[2]])
+        elif e[0] == "finish":
+            acts.append(["finish", e[2]] + e[3:])
+        elif e[0] == "cancel":
+            acts.append(["cancel", e[2]])
+        elif e[0] == "timer.pop":
+            # look ahead: reset -> (submit by the timer thread | nothing more by it before a fatal) ; no reset: cannot resume
+            idx = e[2]
+            ok = True
+            j = i + 1
+            reset_seen = False
+            while j < len(evs):
+                f = evs[j]
+                if f[0] == "reset" and f[2] == idx:
+                    reset_seen = True
+                elif f[0] == "submit" and reset_seen and f[2] == "thread":
+                    ok = True
+                    break
+                elif f[0] in ("timer.pop", "exec.end"):
+                    ok = not reset_seen if f[0] == "exec.end" else ok
+                    if reset_seen and f[0] == "timer.pop":
+                        ok = False
+                    break
+                j += 1
+            acts.append(["timerFire", idx, bool(ok)])
+        elif e[0] == "exec.end":
+            acts.append(["wake"])
+            end = e
+            break
+        i += 1
+    return {"n": n, "maxConc": max_conc, "acts": acts, "end": end}
+
+
+def compare_par(ctx, sc, inv, component="executor.par"):
+    if not (ctx.driver and ctx.driver.ok):
+        return
+    blocks = [b for b in sc["blocks"] if b["kind"] in ("map", "parallel")]
+    if len(blocks) != 1 or not inv.get("pevents"):
+        return
+    d = derive_par_actions(inv["pevents"])
+    if d is None or d["n"] == 0 or d["end"] is None or d["end"][3] == "SimAbort":
+        return  # no executor run, or the simulation was torn down (a user function that never returns)
+    cfg = sc.get("completion") or {}
+    q = {"c": "par.run", "n": d["n"], "maxConc": d["maxConc"], "acts": d["acts"]}
+    if cfg.get("min") is not None:
+        q["min"] = cfg["min"]
+    if cfg.get("count") is not None:
+        q["count"] = cfg["count"]
+    if cfg.get("pct") is not None:
+        q["pctNum"], q["pctDen"] = cfg["pct"], 1
+    a = ctx.driver.ask(q)
+    case = {"scenario": sc, "acts": d["acts"]}
+    if not a.get("enabled"):
+        k = a.get("failed_at") or 0
+        ctx.disagree(component, case, {"at": k, "acts": d["acts"][max(0, k - 5): k + 1]}, {"statuses": a.get("statuses"), "evt": a.get("evt")},
+                     "the real executor performed an action the Par model does not enable")
+        return
+    end = d["end"]
+    out = a.get("out")
+    if end[2] == "result":
+        want = {"k": "result", "items": [{"SUCCEEDED": "completed", "FAILED": "failed"}.get(x, "started") for x in end[3]]}
+        got = None if out is None else {"k": out["k"], "items": [x if x in ("completed", "failed") else "started" for x in out.get("items", [])]}
+    elif end[3] in ("TimedSuspendExecution", "SuspendExecution"):
+        want = {"k": "suspend", "timed": end[3] == "TimedSuspendExecution"}
+        got = None if out is None else {"k": out["k"], "timed": out.get("t") is not None}
+    else:
+        want = {"k": "fatal"}
+        got = None if out is None else {"k": out["k"]}
+    if got != want:
+        ctx.disagree(component, case, want, got, "executor outcome differs from the Par model")
+        return
+    if a["maxActive"] > a["maxWorkers"]:
+        ctx.disagree(component, case, a["maxActive"], a["maxWorkers"], "more active branches than workers")
+        return
+    ctx.traces_validated += 1
